@@ -158,11 +158,12 @@ def base_env(pid, incrate):
 
 def kani_cmd(pid, extra):
     p = PROPS[pid]
-    cmd = ["cargo", "kani", "-p", "prometheus", "--target-dir", os.path.join(BUILD, "kani", pid + p.get("target_suffix", "")),
+    cmd = ["cargo", "kani", "-p", "prometheus", "--target-dir", os.path.join(BUILD, "kani", pid + p.get("target_suffix", "") + os.environ.get("VERIF_TARGET_SUFFIX", "")),
            "-Z", "stubbing", "-Z", "unstable-options"]
     if p.get("features", "plain") == "plain":
         cmd.append("--no-default-features")
     cmd += p.get("kani_flags", [])
+    cmd += os.environ.get("VERIF_EXTRA_FLAGS", "").split()
     return cmd + extra
 
 
